@@ -38,7 +38,14 @@ def cases(tier, seed):
         kw = dict(seasons=(1, 2), p_gw=0.15, p_custom=0.2, hostile=(i % 4 == 0), p_bunds=0.2, p_mulch=0.2)
         if i % 3 == 0:
             kw.update(methods=(0,))       # rainfed bases for the 'neutral value vs off' family
+        if i % 4 == 1:
+            kw.update(off_season=True, p_ffm=0.5, pre=(5, 40, 90))   # fallow days: the fallow management acts
+        if i % 4 == 2:
+            kw.update(off_season=False, seasons=(2, 3))               # season resets act
         sp = gen.config(rng, **kw)
+        if i % 8 == 1:
+            # in-season curve-number adjustment on (its fallow twin stays off)
+            sp.setdefault("fm", {}).update(curve_number_adj=True, curve_number_adj_pct=float(gen.pick(rng, [-10, 10, 25])))
         sp["crop"]["harvest"] = None
         out.append({"spec": sp, "seed": int(rng.integers(0, 2 ** 31 - 1))})
     return out
@@ -46,32 +53,40 @@ def cases(tier, seed):
 
 # --- transformations: spec -> new spec or None when not applicable ------------------------
 
-def fm(sp):
-    return dict(sp.get("fm") or {})
+def fm(sp, key="fm"):
+    return dict(sp.get(key) or {})
+
+
+def _target(sp, rng):
+    """The in-season or (when the run has fallow days to show it) the fallow management."""
+    return "ffm" if rng.random() < 0.4 else "fm"
 
 
 def t_mulch_params_off(sp, rng, ctx):
-    f = fm(sp)
+    key = _target(sp, rng)
+    f = fm(sp, key)
     if f.get("mulches"):
         return None
     f.update(mulches=False, mulch_pct=float(gen.pick(rng, [0, 35, 100])), f_mulch=float(gen.pick(rng, [0.0, 0.3, 1.0])))
-    return dict(sp, fm=f)
+    return dict(sp, **{key: f})
 
 
 def t_bund_params_off(sp, rng, ctx):
-    f = fm(sp)
+    key = _target(sp, rng)
+    f = fm(sp, key)
     if f.get("bunds"):
         return None
-    f.update(bunds=False, z_bund=float(gen.pick(rng, [0.05, 0.2, 0.5])), bund_water=float(gen.pick(rng, [0, 40, 300])))
-    return dict(sp, fm=f)
+    f.update(bunds=False, z_bund=float(gen.pick(rng, [0.05, 0.2, 0.5])), bund_water=float(gen.pick(rng, [15, 40, 300])))
+    return dict(sp, **{key: f})
 
 
 def t_cn_pct_off(sp, rng, ctx):
-    f = fm(sp)
+    key = _target(sp, rng)
+    f = fm(sp, key)
     if f.get("curve_number_adj"):
         return None
     f.update(curve_number_adj=False, curve_number_adj_pct=float(gen.pick(rng, [-30, -10, 10, 25])))
-    return dict(sp, fm=f)
+    return dict(sp, **{key: f})
 
 
 def t_other_strategy_params(sp, rng, ctx):
